@@ -128,6 +128,10 @@ func cmdVerify(args []string) (code int) {
 	for _, w := range v.warnings {
 		fmt.Fprintln(os.Stderr, "warning:", w)
 	}
+	if *tier == "thorough" {
+		// thorough: branch-level vacuity covers as well (reported as notes and in the evidence; see tools/vacuity_selftest.sh)
+		coverReturns = true
+	}
 	workdir := filepath.Join(*verif, "work", "smt", *prop)
 	os.RemoveAll(workdir)
 	os.MkdirAll(workdir, 0o755)
@@ -286,12 +290,14 @@ func cmdVerify(args []string) (code int) {
 	var knownHit []string
 	engineProblem := false
 	nKnownBounded := 0
+	var unreachable []string
 	for _, o := range allObls {
 		solverTime += o.TimeS
 		if o.Cover {
 			nCover++
 			if o.Result == "unsat" && strings.HasPrefix(o.Label, "return@") {
 				fmt.Fprintf(os.Stderr, "note: unreachable return: %s\n", o.Name)
+				unreachable = append(unreachable, o.Name)
 				continue
 			}
 			if o.Result == "unsat" {
@@ -463,6 +469,7 @@ func cmdVerify(args []string) (code int) {
 				"known_findings_reported":  len(knownHit),
 				"known_findings_from_bounded_checks": nKnownBounded,
 				"cover_checks_sat":         nCover,
+				"blocks_proved_unreachable": unreachable,
 				"checker_cmd":              fmt.Sprintf("/verif/bin/gocv verify --prop %s --tier %s", cfg.ID, *tier),
 				"trusted_base":             []string{"golang.org/x/tools go/packages+go/types+go/ssa v0.29.0 (source -> SSA)", "gocv VC generator (/verif/gocv)", "z3 5.1.0 (z3-new), z3 4.8.12, cvc5 1.0.3", "ext contracts in /verif/contracts/ext (assumed)"},
 				"explanation":              cfg.Explanation,
